@@ -563,4 +563,103 @@ def run(ctx):
     dual1(ctx, B)
     rwg_tables(ctx, B, pts)
     bc_reference_edge(ctx, B)
+    bary_inherit(ctx)
     compat(ctx)
+
+
+def _builder_chains(fn):
+    """[(grid argument, {setter name: argument node})] of every SpaceBuilder(...).set_x(...)...build() chain in fn."""
+    out = []
+    for n in ast.walk(fn):
+        if isinstance(n, ast.Call) and isinstance(n.func, ast.Attribute) and n.func.attr == "build":
+            d, cur = {}, n.func.value
+            while isinstance(cur, ast.Call) and isinstance(cur.func, ast.Attribute):
+                d[cur.func.attr] = cur.args[0] if cur.args else None
+                cur = cur.func.value
+            if isinstance(cur, ast.Call) and unparse(cur.func) == "SpaceBuilder" and cur.args:
+                out.append((cur.args[0], d, n))
+    return out
+
+
+def bary_inherit(ctx):
+    """Every space built on the barycentric refinement gives sub-triangle 6e+j the data of coarse element e: support =
+    the six sub-triangles of every coarse support element, normal multiplier = that of the coarse element."""
+    r = ctx.rule("BARY-INHERIT", "spaces on the barycentric grid: sub-triangle 6e+j is in the support iff coarse element e is, and inherits e's normal multiplier (repeat(.., 6), never tile)", 8)
+    n = 0
+    for rel in (SS, DS, MS):
+        m = ctx.repo.mod(rel)
+        for qn, fn in m.functions.items():
+            if "." in qn or "<" in qn:
+                continue
+            for g, d, node in _builder_chains(fn):
+                defs = roles.Defs(fn)
+                gg = roles.canon(g, defs).replace(" ", "")
+                if not gg.endswith(".barycentric_refinement"):
+                    continue
+                n += 1
+                nm = d.get("set_normal_multipliers")
+                sup = d.get("set_support")
+                got_nm = roles.canon(nm, defs).replace(" ", "") if nm is not None else None
+                got_sup = roles.canon(sup, defs).replace(" ", "") if sup is not None else None
+                why = []
+                mbc = re.match(r"_compute_bc_space_data\(.*\)\[(\d+)\]$", got_nm or "")
+                if mbc:
+                    # BC / RBC: both tables come out of _compute_bc_space_data; follow them into the helpers
+                    ok = _bc_tables(ctx, int(mbc.group(1)), int(re.match(r"_compute_bc_space_data\(.*\)\[(\d+)\]$", got_sup).group(1)) if got_sup and got_sup.startswith("_compute_bc_space_data(") else None, why)
+                else:
+                    # the coarse space: a parameter or a space built in the function
+                    m_ = re.fullmatch(r"_np\.repeat\((.+)\.normal_multipliers,6\)", got_nm or "")
+                    ok = m_ is not None
+                    if not ok:
+                        why.append("normal multipliers are `%s`, expected _np.repeat(<coarse space>.normal_multipliers, 6)" % got_nm)
+                    else:
+                        C = m_.group(1)
+                        if not isinstance(sup, ast.Name):
+                            ok = False
+                            why.append("support is not a local mask")
+                        else:
+                            marks = [s for s in roles.stores(fn.body, defs, lv=False) if isinstance(s.tnode, ast.Subscript) and unparse(s.tnode.value) == sup.id and s.value == "True" and not s.loops and not s.guards]
+                            want_idx = {"((6*_np.repeat(%s.support_elements,6))+_np.tile(_np.arange(6),%s.number_of_support_elements))" % (C, C),
+                                        "((6*_np.repeat(%s.support_elements,6))+_np.tile(_np.arange(6),len(%s.support_elements)))" % (C, C)}
+                            idx_ok = len(marks) == 1 and roles.canon(marks[0].tnode.slice, defs).replace(" ", "") in want_idx
+                            if not idx_ok:
+                                # dual1 lists the coarse support through a comprehension: accept the same formula over any coarse element list
+                                idx_ok = len(marks) == 1 and re.fullmatch(r"\(\(6\*_np\.repeat\((.+),6\)\)\+_np\.tile\(_np\.arange\(6\),len\(\1\)\)\)", roles.canon(marks[0].tnode.slice, defs).replace(" ", "")) is not None
+                            if not idx_ok:
+                                ok = False
+                                why.append("support marks `%s`, expected the sub-triangles 6*e + (0..5) of every coarse support element e" % (roles.canon(marks[0].tnode.slice, defs)[:120] if marks else None))
+                r.check(ok, "%s::%s" % (rel.split("/")[-1], qn), rel, qn, node.lineno, "barycentric inheritance in " + qn, "; ".join(why))
+    if n < 8:
+        raise AnalysisError("only %d spaces on the barycentric refinement found (8 confirmed by hand)" % n)
+    bad = ast.parse("def f(coarse_space):\n    s = _np.zeros(9)\n    return SpaceBuilder(coarse_space.grid.barycentric_refinement).set_support(s).set_normal_multipliers(_np.tile(coarse_space.normal_multipliers, 6)).build()").body[0]
+    g, d, _ = _builder_chains(bad)[0]
+    r.must_fire(re.fullmatch(r"_np\.repeat\((.+)\.normal_multipliers,6\)", roles.canon(d["set_normal_multipliers"], roles.Defs(bad)).replace(" ", "")) is None, "tile instead of repeat")
+
+
+def _bc_tables(ctx, pos_nm, pos_sup, why):
+    f = ctx.repo.mod(MS).fn("_compute_bc_space_data")
+    d = roles.Defs(f)
+    rets = [s for s in f.body if isinstance(s, ast.Return)]
+    if len(rets) != 1 or not isinstance(rets[0].value, ast.Tuple):
+        why.append("_compute_bc_space_data does not return a tuple")
+        return False
+    nm = roles.canon(rets[0].value.elts[pos_nm], d).replace(" ", "")
+    k = re.match(r"_get_data_multipliers\(.*\)\[(\d+)\]$", nm)
+    g = ctx.repo.mod(GRID_).fn("_get_data_multipliers")
+    gd = roles.Defs(g)
+    gr = [s for s in g.body if isinstance(s, ast.Return)]
+    ok = bool(k) and len(gr) == 1 and isinstance(gr[0].value, ast.Tuple)
+    if ok:
+        cs = [a.arg for a in g.args.args]
+        got = roles.canon(gr[0].value.elts[int(k.group(1))], gd).replace(" ", "")
+        ok = got == "_np.repeat(coarse_space.normal_multipliers,6)" and "coarse_space" in cs
+        if not ok:
+            why.append("BC normal multipliers are `%s`" % got[:100])
+    else:
+        why.append("BC normal multipliers do not come from _get_data_multipliers")
+    if pos_sup is not None:
+        sp = roles.canon(rets[0].value.elts[pos_sup], d).replace(" ", "")
+        if not sp.startswith("_get_barycentric_support("):
+            ok = False
+            why.append("BC support is `%s`" % sp[:80])
+    return ok
